@@ -45,6 +45,10 @@ KINDS = {
     "f64k": ("f64", 1),
     "nest": ("((u64, u64), u64)", 3),
     "refpair": ("&(u64, u64)", 2),
+    "hrfn": ("impl for<'x> Fn(&'x u64) -> &'x u64 + Send + Sync", 1),
+    "hrdyn": ("&(dyn for<'x> Fn(&'x u64) -> u64 + Send + Sync)", 1),
+    "fnptr": ("fn(u64) -> u64", 1),
+    "selfref": ("&Self", 1),
 }
 
 
@@ -74,6 +78,12 @@ class Param:
                 return f"&({n}a, {n}b): {ty}"
             raise ValueError
         return f"{n}: {ty}"
+
+    def decl_sig(self, i, fn_name):
+        """parameter as written in a hand-written trait declaration (plain identifiers only)"""
+        if self.pat in ("destr", "wild"):
+            return f"d{i}: {KINDS[self.kind][0]}"
+        return self.sig(i, fn_name)
 
     def binding(self, i, fn_name):
         if self.pat == "same":
@@ -148,6 +158,14 @@ class Param:
             return [f"{n}.0 .0", f"{n}.0 .1", f"{n}.1"]
         if k == "refpair":
             return [f"{n}.0", f"{n}.1"]
+        if k == "hrfn":
+            return [f"*{n}(&7)"]
+        if k == "hrdyn":
+            return [f"{n}(&7)"]
+        if k == "fnptr":
+            return [f"{n}(7)"]
+        if k == "selfref":
+            return [f"sim::addr({n}) as u64"]
         raise ValueError(k)
 
     def call(self, k):
@@ -207,6 +225,15 @@ class Param:
             return ("", f"((v[{k}], v[{k+1}]), v[{k+2}])", [f"v[{k}]", f"v[{k+1}]", f"v[{k+2}]"], 3)
         if kd == "refpair":
             return (f"let rp{k} = (v[{k}], v[{k+1}]);", f"&rp{k}", [f"v[{k}]", f"v[{k+1}]"], 2)
+        if kd == "hrfn":
+            return ("", "hr_id", ["7"], 1)
+        if kd == "hrdyn":
+            return (f"let hc{k} = v[{k}];", f"&(move |x: &u64| *x ^ hc{k})", [f"7 ^ v[{k}]"], 1)
+        if kd == "fnptr":
+            return ("", "fp_inc", ["8"], 1)
+        if kd == "selfref":
+            # a second application instance of the same type, distinct from the receiver
+            return ("", "{OTHER}", ["sim::addr({OTHER}) as u64"], 1)
         raise ValueError(kd)
 
 
@@ -261,7 +288,24 @@ class Fn:
         return len(tys) > 1 or self.ret not in ("u64", "unit") or any(p.kind != "u64" for p in self.params)
 
 
-HET = '#[cfg(feature = "hetero")]\n'
+CID = [0]
+
+
+def new_container():
+    """Every corpus container (one entraited fn, module, trait with its provider impls, or
+    dependency-inversion family) can be compiled out on its own with `--cfg skip_c<N>`:
+    when a change to the macro makes some containers stop compiling, run.sh drops exactly
+    those (compile-error-driven slicing) and the simulation still decides on the rest."""
+    CID[0] += 1
+    return CID[0]
+
+
+def ccfg(cid):
+    return f"#[cfg(not(skip_c{cid}))]\n"
+
+
+def cmark(cid):
+    return f"// @C{cid}\n"
 
 
 FN_COUNTER = [0]
@@ -420,7 +464,8 @@ unmock_traits = []   # traits the Unimock handle implements (unimock build)
 def single(fn):
     register(fn)
     attr = f"#[entrait(pub {fn.trait}{', ' + fn.opts if fn.opts else ''})]"
-    corpus.append((HET if fn.hetero else "") + attr + "\n" + fn_text(fn))
+    fn.cid = new_container()
+    corpus.append(cmark(fn.cid) + ccfg(fn.cid) + attr + "\n" + fn_text(fn) + cmark(0))
     t = fn.trait + (fn.bundle_args or ("<u64>" if any(p.kind == "gen" for p in fn.params) else ""))
     if fn.deps[0] != "byval" and fn.bundle_args != "-":
         bundle_traits.append((t, fn.hetero))
@@ -430,13 +475,15 @@ def single(fn):
 def module(name, trait, fns, private_text="", opts="", props=("C01",)):
     chunks = []
     het = any(fn.hetero for fn in fns)
+    cid = new_container()
     for fn in fns:
         fn.props = list(props)
+        fn.cid = cid
         fn.container_hetero = het
         register(fn, container=name)
         chunks.append(fn_text(fn, indent="    "))
     attr = f"#[entrait(pub {trait}{', ' + opts if opts else ''})]"
-    corpus.append((HET if het else "") + f"{attr}\npub mod {name} {{\n    use super::*;\n" + "\n".join(chunks) + private_text + "}\n")
+    corpus.append(cmark(cid) + ccfg(cid) + f"{attr}\npub mod {name} {{\n    use super::*;\n" + "\n".join(chunks) + private_text + "}\n" + cmark(0))
     bundle_traits.append((trait, het))
     return het
 
@@ -613,7 +660,7 @@ module("mndh", "Mndh", [
 
 
 # ==== systematic matrices: parameter kinds, return kinds, arities ==========
-MATRIX_KINDS = [k for k in KINDS if k not in ("refa", "gen", "genm", "arrN", "u64")]
+MATRIX_KINDS = [k for k in KINDS if k not in ("refa", "gen", "genm", "arrN", "u64", "selfref")]
 ASYNC_SKIP = {"fn"}        # not Send
 for k in MATRIX_KINDS:
     single(Fn(f"k_{k}", ("impl", ["F0"]), [k, "u64", k]))
@@ -638,17 +685,49 @@ module("mkh", "Mkh", [Fn(f"mkh_{r}", ("impl", ["F0"]), ["u64", "u64"], ret=r) fo
        + [Fn(f"amkh_{r}", ("impl", ["Af0"]), ["u64", "u64"], ret=r, is_async=True) for r in MATRIX_RETS if r not in HOMOG_RETS])
 module("mkk", "Mkk", [Fn(f"mkk_{k}", ("impl", ["F0"]), [k, "u64"]) for k in MATRIX_KINDS])
 
+
+# ==== names that could collide with identifiers a macro uses internally ====
+SUSPICIOUS = ["target", "this", "inner", "args", "fut", "result", "ret", "value", "output", "call", "f", "x", "app", "provider", "delegate", "entrait", "arg", "res", "tmp", "future"]
+for nme in SUSPICIOUS:
+    single(Fn(f"n1_{nme}", ("impl", ["F0"]), [f"name={nme}:u64", "u64"]))
+    single(Fn(f"n2_{nme}", ("impl", ["Af0"]), ["u64", f"name={nme}:u64"], is_async=True))
+module("mnames", "Mnames", [Fn(f"mn_{nme}", ("impl", ["F0"]), ["u64", f"name={nme}:u64"]) for nme in SUSPICIOUS])
+# ==== unnamable patterns at position N next to a sibling literally named argN / _argN
+for N in range(0, 3):
+    for which, pk in enumerate(["destr:pair", "destr:arr", "destr:nest"]):
+        ty = {"destr:pair": "pair", "destr:arr": "arr", "destr:nest": "nest"}[pk]
+        before = ["u64"] * N
+        single(Fn(f"dn{N}{which}_after", ("impl", ["F0"]), before + [pk, f"name=arg{N}:{ty}"]))
+        single(Fn(f"adn{N}{which}_after", ("impl", ["Af0"]), before + [pk, f"name=arg{N}:{ty}"], is_async=True))
+        single(Fn(f"dnu{N}{which}", ("impl", ["F0"]), before + [pk, f"name=_arg{N}:{ty}", f"name=arg{N}:{ty}"]))
+        single(Fn(f"nddn{N}{which}", ("nodeps", []), before + [pk, f"name=arg{N}:{ty}"], opts="no_deps"))
+    single(Fn(f"dnb{N}", ("impl", ["F0"]), [f"name=arg{N + 1}:pair"] + ["u64"] * N + ["destr:pair"]))
+module("mdn", "Mdn", [Fn(f"mdn{N}", ("impl", ["F0"]), ["u64"] * N + ["destr:pair", f"name=arg{N}:pair"]) for N in range(0, 3)]
+       + [Fn(f"amdn{N}", ("impl", ["Af0"]), ["u64"] * N + ["destr:arr", f"name=arg{N}:arr"], is_async=True) for N in range(0, 3)])
+single(Fn("hr1", ("impl", ["F0"]), ["hrfn", "u64"]))
+single(Fn("ahr1", ("impl", ["Af0"]), ["hrfn", "u64"], is_async=True, props=("C01", "C14")))
+single(Fn("ahr2", ("impl", ["Af0"]), ["u64", "hrdyn"], is_async=True, props=("C01", "C14")))
+single(Fn("ahr3", ("impl", ["Af0"]), ["fnptr", "u64"], is_async=True))
+module("mhr", "Mhr", [Fn("mhr1", ("impl", ["Af0"]), ["hrfn", "u64"], is_async=True), Fn("mhr2", ("impl", ["F0"]), ["hrdyn", "u64"])])
+
 N_PLAIN = METHOD_COUNTER[0]
 
 # ---- write corpus prelude -------------------------------------------------
 prelude = """// @generated by gen_corpus.py — do not edit by hand.
-#![allow(clippy::all, unused_variables, unused_mut, dead_code, unused_imports)]
+#![allow(clippy::all, unused_variables, unused_mut, dead_code, unused_imports, unexpected_cfgs)]
 use crate::sim::{self, Fp, Tracked};
 use entrait::*;
 
 pub struct W(pub u64);
 pub struct S2 {
     pub s: u64,
+}
+
+pub fn hr_id(x: &u64) -> &u64 {
+    x
+}
+pub fn fp_inc(x: u64) -> u64 {
+    x + 1
 }
 
 /// identity token for by-value dependencies
@@ -686,7 +765,7 @@ def decl_text(fn):
     """method declaration inside a hand-written trait"""
     g = method_generics(fn)
     slf = "&'a self" if fn.ret == "refdeps" else "&self"
-    params = [slf] + [p.sig(i, fn.name) for i, p in enumerate(fn.params)]
+    params = [slf] + [p.decl_sig(i, fn.name) for i, p in enumerate(fn.params)]
     ret = RET_TEXT[fn.ret]
     asy = "async " if fn.is_async else ""
     attrs = f"    {fn.attrs}\n" if fn.attrs else ""
@@ -721,8 +800,10 @@ def trait_section(name, delegate, methods, async_trait=False, generic=False, sup
     """delegate: 'self' | 'ref' | 'borrow'; scoped: declare everything inside a
     module that imports Borrow / AsRef / Deref, as user code commonly does"""
     het = any(fn.hetero for fn in methods)
-    cfg = HET if het else ""
+    cid = new_container()
+    cfg = ccfg(cid)
     for fn in methods:
+        fn.cid = cid
         fn.container_hetero = het
         FN_COUNTER[0] += 2
         fn.fn_id = FN_COUNTER[0] - 1          # app A; app B = +1
@@ -772,7 +853,7 @@ def trait_section(name, delegate, methods, async_trait=False, generic=False, sup
         inner = "\n".join("    " + l if l else l for l in text.split("\n"))
         text = (f"{cfg}pub mod scope_{name.lower()} {{\n    use super::*;\n    #[allow(unused_imports)]\n"
                 f"    use std::{{borrow::Borrow, convert::AsRef, ops::Deref}};\n{inner}}}\n{cfg}pub use scope_{name.lower()}::{name};\n")
-    corpus.append(text)
+    corpus.append(cmark(cid) + text + cmark(0))
     bundle_traits.append((name + ("<u64>" if generic else ""), het))
 
 
@@ -869,6 +950,17 @@ trait_section("ARefKH", "ref", [Fn(f"arkh_{r}", SELF, ["u64", "u64"], ret=r, is_
 trait_section("PlainKK", "self", [Fn(f"pkk_{k}", SELF, [k, "u64"]) for k in MATRIX_KINDS if k not in ("iter", "into", "fn", "fnsend", "fnmut", "fnonce")])
 trait_section("PlainAr", "self", [Fn(f"par{n}", SELF, ["u64"] * n) for n in range(0, 9)])
 trait_section("ByRefAr", "ref", [Fn(f"rar{n}", SELF, ["u64"] * n) for n in range(0, 7)], supers=": 'static")
+
+trait_section("PlainNames", "self", [Fn(f"pn_{nme}", SELF, ["u64", f"name={nme}:u64"]) for nme in SUSPICIOUS])
+trait_section("ByRefNames", "ref", [Fn(f"rn_{nme}", SELF, [f"name={nme}:u64", "u64"]) for nme in SUSPICIOUS], supers=": 'static")
+trait_section("ByBorrowNames", "borrow", [Fn(f"bn_{nme}", SELF, ["u64", f"name={nme}:u64"]) for nme in SUSPICIOUS[:8]], supers=": 'static")
+trait_section("APlainNames", "self", [Fn(f"apn_{nme}", SELF, ["u64", f"name={nme}:u64"], is_async=True) for nme in SUSPICIOUS[:10]])
+trait_section("PlainSelfRef", "self", [
+    Fn("psr_target", SELF, ["name=target:selfref", "u64"]),
+    Fn("psr_other", SELF, ["u64", "name=other:selfref"]),
+    Fn("apsr_this", SELF, ["name=this:selfref", "u64"], is_async=True),
+])
+trait_section("PlainSame", "self", [Fn("psame", SELF, ["u64", "same:u64"]), Fn("psame3", SELF, ["u64", "u64", "same:u64"])])
 # the slot trait used by ret_refdeps (plain accessor, not recorded)
 corpus.append("""#[entrait]
 pub trait SlotRef {
@@ -894,8 +986,10 @@ def inversion(trait, impl_trait, mode, methods, delegate_ident=None, async_trait
     at = "#[async_trait::async_trait]\n" if async_trait else ""
     decls = []
     het = any(d.hetero for d, _, _ in methods)
-    cfg = HET if het else ""
+    cid = new_container()
+    cfg = ccfg(cid)
     for decl, _, _calls in methods:
+        decl.cid = cid
         decl.container_hetero = het
         decl.calls = list(_calls)
         FN_COUNTER[0] += 2
@@ -959,7 +1053,7 @@ def inversion(trait, impl_trait, mode, methods, delegate_ident=None, async_trait
         d.lookups = 0 if mode == "static" else 1
         if mode != "static":
             d.lookup_kind = lookup_kind(trait)
-    corpus.append(text)
+    corpus.append(cmark(cid) + text + cmark(0))
     bundle_traits.append((trait, het))
 
 
@@ -1031,6 +1125,18 @@ inversion("InvKH", "InvKHImpl", "static",
 inversion("DynInvKH", "DynInvKHImpl", "dyn",
           [(Fn(f"dkh_{r}", SELF, ["u64", "u64"], ret=r), ("impl", ["F0"]), ["f0"]) for r in DYN_RETS_H])
 inversion("DynInvAr", "DynInvArImpl", "dyn", [(Fn(f"dar{n}", SELF, ["u64"] * n), ("any", []), []) for n in range(0, 7)])
+
+inversion("InvNames", "InvNamesImpl", "static",
+          [(Fn(f"in_{nme}", SELF, ["u64", f"name={nme}:u64"]), ("impl", ["F0"]), ["f0"]) for nme in SUSPICIOUS]
+          + [(Fn("isame", SELF, ["u64", "same:u64"]), ("any", []), []), (Fn("isame3", SELF, ["u64", "u64", "same:u64"]), ("impl", ["F0"]), ["f0"]),
+             (Fn("aisame", SELF, ["u64", "same:u64"], is_async=True), ("impl", ["Af0"]), ["af0"])],
+          delegate_ident="DelegateInvNames")
+inversion("DynInvNames", "DynInvNamesImpl", "dyn",
+          [(Fn(f"dn_{nme}", SELF, [f"name={nme}:u64", "u64"]), ("any", []), []) for nme in SUSPICIOUS[:10]]
+          + [(Fn("dsame", SELF, ["u64", "same:u64"]), ("any", []), []), (Fn("dsame3", SELF, ["u64", "u64", "same:u64"]), ("any", []), [])])
+inversion("InvDn", "InvDnImpl", "static",
+          [(Fn(f"idn{N}", SELF, ["u64"] * N + ["destr:pair", f"name=arg{N}:pair"]), ("any", []), []) for N in range(0, 3)],
+          delegate_ident="DelegateInvDn")
 # --------------------------------------------------------------------------
 # un-mock section (C11): exported mock APIs; in the default build these are
 # ordinary entraited functions exercised through Impl<T> (C01)
@@ -1074,6 +1180,15 @@ for r in ["unit", "boolr", "u32r", "result", "opt"]:
 for n in range(0, 7):
     usingle(Fn(f"undar{n}", ("nodeps", []), ["u64"] * n, opts="no_deps"), f"Undar{n}Mock")
     usingle(Fn(f"uar{n}", ("impl", ["U0"]), ["u64"] * n), f"Uar{n}Mock")
+
+usingle(Fn("und_destr2", ("nodeps", []), ["destr:pair", "pair"], opts="no_deps"), "UndDestr2Mock")
+usingle(Fn("und_destr3", ("nodeps", []), ["pair", "destr:pair", "pair"], opts="no_deps"), "UndDestr3Mock")
+usingle(Fn("und_wild2", ("nodeps", []), ["wild:u64", "u64", "wild:u64", "u64"], opts="no_deps"), "UndWild2Mock")
+usingle(Fn("und_same", ("nodeps", []), ["u64", "same:u64"], opts="no_deps"), "UndSameMock")
+usingle(Fn("u_same", ("impl", ["U0"]), ["u64", "same:u64"], calls=["u0"]), "USameMock")
+usingle(Fn("und_argn", ("nodeps", []), ["destr:pair", "name=arg0:pair"], opts="no_deps"), "UndArgnMock")
+for nme in SUSPICIOUS[:8]:
+    usingle(Fn(f"un_{nme}", ("nodeps", []), ["u64", f"name={nme}:u64"], opts="no_deps"), f"Un{nme.capitalize()}Mock")
 um_fns = [
     Fn("uma", ("impl", ["U0"]), ["u64", "u64"], calls=["u0"]),
     Fn("umb", ("impl", ["U0"]), ["u64", "u64"], calls=["u0"]),
@@ -1115,9 +1230,9 @@ for name in ("conc2", "conc_ret", "aconc2"):
     ret = RET_TEXT[fn.ret]
     asy = "async " if fn.is_async else ""
     aw = ".await" if fn.is_async else ""
-    conc_adopt += ((HET if fn.hetero else "") + f"/// hand-written adoption of the leaf trait by the application (second hop)\n"
+    conc_adopt += (cmark(fn.cid) + ccfg(fn.cid) + f"/// hand-written adoption of the leaf trait by the application (second hop)\n"
                    f"impl<const K: u16> {fn.trait} for App<K> {{\n    {asy}fn {name}{lt}({', '.join(params)}){ret} {{\n"
-                   f"        {name}(&self.conc_dep, {args}){aw}\n    }}\n}}\n")
+                   f"        {name}(&self.conc_dep, {args}){aw}\n    }}\n}}\n" + cmark(0))
 corpus.append(conc_adopt)
 
 # --------------------------------------------------------------------------
@@ -1154,6 +1269,15 @@ impl<const K: u16> App<K> {{
 {inits}        }}
     }}
 }}
+/// a second instance of each application type (for `&Self` arguments)
+pub fn other_a() -> &'static Impl<AppA> {{
+    static O: std::sync::OnceLock<Impl<AppA>> = std::sync::OnceLock::new();
+    O.get_or_init(|| sim::masked(|| Impl::new(AppA::new())))
+}}
+pub fn other_b() -> &'static Impl<AppB> {{
+    static O: std::sync::OnceLock<Impl<AppB>> = std::sync::OnceLock::new();
+    O.get_or_init(|| sim::masked(|| Impl::new(AppB::new())))
+}}
 /// small by-value application carrying an identity token
 #[derive(Clone, Copy)]
 pub struct SmallApp {{
@@ -1166,19 +1290,6 @@ impl Token for Impl<SmallApp> {{
 }}
 """
 corpus.append(apps)
-
-def bundle_text(name, traits, extra_cfg=""):
-    out = ""
-    for het_on in (True, False):
-        ts = [t for t, h in traits if het_on or not h]
-        c = '#[cfg(feature = "hetero")]\n' if het_on else '#[cfg(not(feature = "hetero"))]\n'
-        out += f"{extra_cfg}{c}pub trait {name}: " + " + ".join(ts) + " {}\n"
-        out += f"{extra_cfg}{c}impl<X: " + " + ".join(ts) + f"> {name} for X {{}}\n"
-    return out
-
-
-corpus.append(bundle_text("Bundle", bundle_traits))
-corpus.append(bundle_text("UnmockBundle", unmock_traits, '#[cfg(feature = "unimock")]\n'))
 
 with open(os.path.join(OUT, "corpus.rs"), "w") as f:
     f.write(prelude + "\n".join(corpus))
@@ -1232,13 +1343,15 @@ def arm(fn, ab, is_async, mock=False):
         tc, dc, recv = fn.trait_call, fn.direct_call, fn.recv_expr
     else:
         tc, dc, recv = plain_calls(fn)
+    other = f"crate::corpus::other_{ab.lower()}()"
+    args = args.replace("{OTHER}", other)
+    fps = [f.replace("{OTHER}", other) for f in fps]
     tc = tc.replace("{args}", args).replace(", )", ")")
     dc = dc.replace("{args}", args).replace("{AB}", ab).replace("{ab}", ab.lower()).replace(", )", ")")
     aw = ".await" if fn.is_async else ""
     if mock:
         dc = tc  # the un-mock twin is chosen by the executor, not here
-    het = getattr(fn, "container_hetero", fn.hetero)
-    body = ('        #[cfg(feature = "hetero")]\n' if het else "") + f"        {fn.method_id} => {{\n"
+    body = f"        // @C{fn.cid}\n        #[cfg(not(skip_c{fn.cid}))]\n        {fn.method_id} => {{\n"
     for p in pre:
         body += f"            {p}\n"
     body += f"            let __t = sim::call_start_flavor({fn.method_id}, {recv}, &[{', '.join(fps)}], flavor);\n"
@@ -1247,12 +1360,12 @@ def arm(fn, ab, is_async, mock=False):
     if fn.is_async:
         body += f"            if flavor == 1 {{\n                if direct {{ drop({dc}); }} else {{ drop({tc}); }}\n                sim::call_end(__t, 0);\n                return 0;\n            }}\n"
     body += f"            let __fp = if direct {{ let __r = {dc}{aw}; {ret_fp(fn)} }} else {{ let __r = {tc}{aw}; {ret_fp(fn)} }};\n"
-    body += f"            sim::call_end(__t, __fp);\n            __fp\n        }}\n"
+    body += f"            sim::call_end(__t, __fp);\n            __fp\n        }}\n        // @C0\n"
     return body
 
 
 disp = """// @generated by gen_corpus.py — do not edit by hand.
-#![allow(clippy::all, unused_variables, unused_mut, dead_code, unused_imports, unreachable_code)]
+#![allow(clippy::all, unused_variables, unused_mut, dead_code, unused_imports, unreachable_code, unexpected_cfgs, unused_unsafe)]
 use crate::corpus::*;
 use crate::sim::{self, Tracked};
 use entrait::Impl;
@@ -1279,9 +1392,10 @@ pub struct MethodModel {
     pub callees: &'static [u16],
     pub props: &'static [&'static str],
     pub unmockable: bool,
-    /// false when the method's corpus slice is compiled out (fallback build
-    /// without the `hetero` feature)
+    /// false when the method's corpus container is compiled out (`--cfg skip_c<N>`,
+    /// see run.sh: compile-error-driven slicing)
     pub available: bool,
+    pub container: u16,
 }
 
 pub const MODEL: &[MethodModel] = &[
@@ -1290,13 +1404,11 @@ for fn in METHODS:
     _, _, fps, used = build_args(fn)
     fn_ids = getattr(fn, "fn_ids", (fn.fn_id, fn.fn_id))
     callees = [ALL_FNS[c].method_id for c in fn.calls]
-    for c in fn.calls:
-        assert not getattr(ALL_FNS[c], "container_hetero", ALL_FNS[c].hetero), (fn.name, c)
     disp += (f"    MethodModel {{ id: {fn.method_id}, name: \"{fn.name}\", section: \"{fn.section}\", is_async: {str(fn.is_async).lower()}, "
              f"dynamic: {str(fn.dynamic).lower()}, fn_id: [{fn_ids[0]}, {fn_ids[1]}], nfp: {len(fps)}, nvals: {used}, "
              f"lookups: {getattr(fn, 'lookups', 0)}, lookup_kind: {getattr(fn, 'lookup_kind', 0)}, ret_unit: {str(fn.ret in ('unit', 'explicit_unit')).lower()}, "
              f"callees: &{callees}, props: &{list(fn.props)!r}, unmockable: {str(fn in UNMOCK).lower()}, "
-             f"available: {'cfg!(feature = !hetero!)' if getattr(fn, 'container_hetero', fn.hetero) else 'true'} }},\n").replace("'", '"').replace("!hetero!", '"hetero"')
+             f"available: cfg!(not(skip_c{fn.cid})), container: {fn.cid} }},\n").replace("'", '"')
 disp += "];\n\n"
 
 
@@ -1317,9 +1429,28 @@ for ab, k in (("A", 0), ("B", 1)):
 cfg = "#[cfg(feature = \"unimock\")]\n"
 disp += dispatch_fn("call_sync_mock", "::unimock::Unimock", "A", False, UNMOCK, mock=True, cfg=cfg)
 disp += dispatch_fn("call_async_mock", "::unimock::Unimock", "A", True, UNMOCK, mock=True, cfg=cfg)
-disp += "pub fn assert_bundles() {\n    fn is_bundle<X: Bundle>() {}\n    is_bundle::<Impl<AppA>>();\n    is_bundle::<Impl<AppB>>();\n}\n"
-disp += cfg + "pub fn assert_unmock_bundle() {\n    fn is<X: UnmockBundle>() {}\n    is::<::unimock::Unimock>();\n    is::<Impl<AppA>>();\n}\n"
+disp += "pub fn assert_bundles() {}\n"
 
 with open(os.path.join(OUT, "dispatch.rs"), "w") as f:
     f.write(disp)
-print(f"{len(METHODS)} methods, {FN_COUNTER[0]} original functions, {len(UNMOCK)} un-mockable")
+
+
+def linemap(path, fname, out):
+    cur = 0
+    start = 1
+    for ln, line in enumerate(open(path), 1):
+        t = line.strip()
+        if t.startswith("// @C"):
+            if cur:
+                out.append(f"{fname}\t{start}\t{ln}\t{cur}")
+            cur = int(t[5:])
+            start = ln
+    return out
+
+
+lm = []
+linemap(os.path.join(OUT, "corpus.rs"), "src/corpus.rs", lm)
+linemap(os.path.join(OUT, "dispatch.rs"), "src/dispatch.rs", lm)
+with open(os.path.join(OUT, "linemap.tsv"), "w") as f:
+    f.write("\n".join(lm) + "\n")
+print(f"{len(METHODS)} methods, {FN_COUNTER[0]} original functions, {len(UNMOCK)} un-mockable, {CID[0]} containers")
